@@ -90,6 +90,7 @@ fn val_out() -> BoxedStrategy<Val> {
         4 => "[a-z0-9 ]{0,6}".prop_map(Val::Str),
         2 => (-99i64..99).prop_map(Val::Int),
         1 => (-20i16..20).prop_map(Val::Float),
+        1 => (-9i8..9).prop_map(Val::WholeFloat),
         1 => any::<bool>().prop_map(Val::Bool),
         1 => proptest::collection::vec(("[a-c]{1,2}", 0i64..9), 1..3).prop_map(|kv| {
             let mut out: Vec<(String, i64)> = vec![];
